@@ -515,6 +515,24 @@ def emit(n, masks, path, modname):
     w("    Some(panicked)")
     w("}")
     w("")
+    w("/// Two operations through ONE `Entry`: `add(c1)` and then `add(c2)` (or `remove::<c2>()`): the handle must follow the")
+    w("/// entity into its new archetype.")
+    w("pub fn entry_add_then(w: &mut W, id: entity::Identifier, c1: usize, v1: u64, c2: usize, v2: u64, rm: bool) -> Option<()> {")
+    w("    let mut e = w.entry(id)?;")
+    w("    match c1 {")
+    for k in range(n):
+        w("        %d => { e.add(C%d::new(v1)); }" % (k, k))
+    w("        _ => panic!(\"component {} out of range\", c1),")
+    w("    }")
+    w("    match (c2, rm) {")
+    for k in range(n):
+        w("        (%d, false) => { e.add(C%d::new(v2)); }" % (k, k))
+        w("        (%d, true) => { e.remove::<C%d, _>(); }" % (k, k))
+    w("        _ => panic!(\"component {} out of range\", c2),")
+    w("    }")
+    w("    Some(())")
+    w("}")
+    w("")
     w("pub fn res_values(w: &W) -> [u64; 4] {")
     w("    [w.get::<RA, _>().tok(), w.get::<RB, _>().tok(), w.get::<RC, _>().tok(), w.get::<RD, _>().tok()]")
     w("}")
